@@ -1,10 +1,168 @@
-(* C04 - Headline, monthly breakdown and saved tables agree.  Statements; proofs in Proofs/Report.v *)
-From Coq Require Import QArith List String Bool.
+(* C04 - Headline, monthly breakdown and saved tables agree.
+   Statements only; proofs in Proofs/Report.v.  Model/Report.v transliterates Extractor.extract_results and
+   Interpreter.interpret_results (kcals); the unit multipliers are read from Gen/UnitTables.v (regenerated from
+   unit_conversions.py on every run); the LP rows are those of Model/LP.v.
+   Scope notes: numbers are exact rationals; the CSV on disk is a file-system observation audited on every
+   captured round, not modelled. *)
+From Coq Require Import QArith Lqa List String Bool.
 From Allfed Require Import Base.StrUtil Gen.UnitTables Model.Units Model.LP Model.Report Proofs.Units Proofs.Report.
 Import ListNotations.
 Open Scope Q_scope.
 
+(* (1) every reported contribution is the optimiser's allocation converted to the reporting unit:
+   percent fed = 100 * ratio * value / BILLION_KCALS_NEEDED, kcals per person per day = ratio * value * 1e9 / (30 * population);
+   for ANY accepted input of the chain, every month; ratio = 1 except seaweed (SEAWEED_KCALS);
+   var_at is the solved value (0 when the food is not modelled) *)
+Theorem c04_conversion : forall x e i, report x = Ok (e, i) -> settings_ok x ->
+  let c := r_conv x in let need := billion_kcals_needed c in
+  forall m, (m < r_n x)%nat ->
+  (nthq (p_sf i) m == 100 * (1 * var_at (v_sf_h x) m) / need /\
+   nthq (p_cr i) m == 100 * (1 * var_at (v_cr_h x) m) / need /\
+   nthq (p_sw i) m == 100 * (r_sw_kcals x * var_at (v_sw_h x) m) / need /\
+   nthq (p_cs i) m == 100 * (1 * var_at (v_cs_h x) m) / need /\
+   nthq (p_scp i) m == 100 * (1 * var_at (v_scp_h x) m) / need /\
+   nthq (p_meat i) m == 100 * (1 * var_at (v_meat x) m) / need /\
+   nthq (p_gh i) m == 100 * nthq (r_greenhouse x) m / need /\
+   nthq (p_fish i) m == 100 * nthq (r_fish x) m / need /\
+   nthq (p_milk i) m == 100 * nthq (r_milk x) m / need) /\
+  (nthq (k_sf i) m == 1 * var_at (v_sf_h x) m * 1000000000 / (30 * population c) /\
+   nthq (k_sw i) m == r_sw_kcals x * var_at (v_sw_h x) m * 1000000000 / (30 * population c) /\
+   nthq (k_cs i) m == 1 * var_at (v_cs_h x) m * 1000000000 / (30 * population c) /\
+   nthq (k_scp i) m == 1 * var_at (v_scp_h x) m * 1000000000 / (30 * population c) /\
+   nthq (k_meat i) m == 1 * var_at (v_meat x) m * 1000000000 / (30 * population c) /\
+   nthq (k_gh i) m == nthq (r_greenhouse x) m * 1000000000 / (30 * population c) /\
+   nthq (k_fish i) m == nthq (r_fish x) m * 1000000000 / (30 * population c) /\
+   nthq (k_milk i) m == nthq (r_milk x) m * 1000000000 / (30 * population c)).
+Proof. exact report_conversion. Qed.
+Print Assumptions c04_conversion.
+
+(* (2) the headline is the minimum over months of the sum of the nine per-food series (attained, and a lower bound);
+   the monthly total kept on the interpreter is that sum *)
+Theorem c04_headline_min_sum : forall x e i, report x = Ok (e, i) ->
+  let s m := nthq (p_sf i) m + nthq (p_cr i) m + nthq (p_sw i) m + nthq (p_cs i) m + nthq (p_scp i) m +
+             nthq (p_gh i) m + nthq (p_fish i) m + nthq (p_meat i) m + nthq (p_milk i) m in
+  (forall m, (m < List.length (p_sf i))%nat -> nthq (p_sum i) m = s m) /\
+  (forall m, (m < List.length (p_sf i))%nat -> headline i <= s m) /\
+  (exists m, (m < List.length (p_sf i))%nat /\ headline i = s m).
+Proof. exact report_headline. Qed.
+Print Assumptions c04_headline_min_sum.
+
+(* (3) for the allocation being reported: the monthly total IS the optimiser's consumed_kcals variable and the
+   headline is its minimum over months - for every input and every assignment satisfying the rows
+   Kcals_Fed_Month of the LP (in particular every feasible one, whichever solve produced it) *)
+Theorem c04_headline_min_consumed : forall i c a e ii, lp_settings_ok i c -> Feasible i ToHumans a ->
+  report (report_in i c a) = Ok (e, ii) ->
+  (forall m, (m < NM i)%nat -> nthq (p_sum ii) m == a Consumed m) /\
+  (forall m, (m < NM i)%nat -> headline ii <= a Consumed m) /\
+  (exists m, (m < NM i)%nat /\ headline ii == a Consumed m).
+Proof.
+  intros i c a e ii H F R. pose proof (feasible_consumed_rows i a F) as S.
+  destruct (report_lp_sum i c a e ii H S R) as [_ A].
+  destruct (report_lp_headline i c a e ii H S R) as [B C]. repeat split; assumption.
+Qed.
+Print Assumptions c04_headline_min_consumed.
+
+(* (4) the tie-breaking solves never degrade the headline: any assignment satisfying the base rows plus the
+   second-stage floor built from the first optimum v reports a headline >= 0.99995 v (and >= its own objective
+   variable) *)
+Theorem c04_floor : forall i c a v e ii, lp_settings_ok i c -> Feasible2 i ToHumans v a ->
+  report (report_in i c a) = Ok (e, ii) ->
+  (99995 # 100000) * v <= headline ii /\ a Obj 0%nat <= headline ii.
+Proof. exact report_floor. Qed.
+Print Assumptions c04_floor.
+
+(* ... hence, v being the optimum of the first solve (no feasible point has a larger minimum: C02), the headline
+   is within 0.005 % < 0.01 % of it *)
+Theorem c04_within_tolerance : forall i c a v e ii, lp_settings_ok i c -> Feasible2 i ToHumans v a ->
+  report (report_in i c a) = Ok (e, ii) -> headline ii <= v ->
+  0 <= v - headline ii /\ v - headline ii <= (5 # 100000) * v /\ (0 < v -> (v - headline ii) / v < 1 # 10000).
+Proof.
+  intros i c a v e ii H F R U. destruct (report_floor i c a v e ii H F R) as [L _].
+  exact (within_tolerance v (headline ii) L U).
+Qed.
+Print Assumptions c04_within_tolerance.
+
+(* (5) crop split: eaten immediately + eaten from new storage = crops eaten, and the new-storage part is never
+   negative - both branches of to_monthly_list_outdoor_crops_kcals, any production / allocation, in billion
+   people fed, in percent and in the saved kcals-per-person columns *)
+Theorem c04_split : forall x e i, report x = Ok (e, i) -> positive_settings (r_conv x) -> 0 < r_km x ->
+  forall m, (m < r_n x)%nat ->
+  (nthq (e_imm e) m + nthq (e_ns e) m == nthq (e_cr e) m /\ 0 <= nthq (e_ns e) m) /\
+  (nthq (p_imm i) m + nthq (p_ns i) m == nthq (p_cr i) m /\ 0 <= nthq (p_ns i) m) /\
+  (nthq (k_imm i) m + nthq (k_ns i) m == m_bf_ke (r_conv x) * nthq (e_cr e) m /\ 0 <= nthq (k_ns i) m).
+Proof. exact report_split. Qed.
+Print Assumptions c04_split.
+
 Theorem c04_split_month : forall produced eaten k,
-  fst (split_month produced eaten k) + snd (split_month produced eaten k) == eaten * k.
-Proof. exact split_month_adds_up. Qed.
+  fst (split_month produced eaten k) + snd (split_month produced eaten k) == eaten * k /\
+  (0 <= k -> 0 <= snd (split_month produced eaten k)).
+Proof. intros; split; [apply split_month_adds_up|apply split_month_nonneg]. Qed.
 Print Assumptions c04_split_month.
+
+(* (6) the breakdown kept on the interpreter (stored_food and outdoor_crops rounded to 3 decimals, the other seven
+   unrounded) sums, month by month, to within 0.001 of the unrounded sum whose minimum is the headline; each
+   rounded series is within 0.0005 of the unrounded one *)
+Theorem c04_rounded_breakdown : forall x e i, report x = Ok (e, i) ->
+  let s m := nthq (p_sf i) m + nthq (p_cr i) m + nthq (p_sw i) m + nthq (p_cs i) m + nthq (p_scp i) m +
+             nthq (p_gh i) m + nthq (p_fish i) m + nthq (p_meat i) m + nthq (p_milk i) m in
+  let kept m := nthq (q_sf i) m + nthq (q_cr i) m + nthq (p_sw i) m + nthq (p_cs i) m + nthq (p_scp i) m +
+             nthq (p_gh i) m + nthq (p_fish i) m + nthq (p_meat i) m + nthq (p_milk i) m in
+  forall m, (m < List.length (p_sf i))%nat ->
+    - (1 # 1000) <= kept m - s m <= 1 # 1000 /\
+    - (5 # 10000) <= nthq (q_sf i) m - nthq (p_sf i) m <= 5 # 10000 /\
+    - (5 # 10000) <= nthq (q_cr i) m - nthq (p_cr i) m <= 5 # 10000 /\
+    - (5 # 10000) <= nthq (q_sw i) m - nthq (p_sw i) m <= 5 # 10000.
+Proof. exact report_rounded. Qed.
+Print Assumptions c04_rounded_breakdown.
+
+Theorem c04_round_bound : forall d x, - ((1 # 2) / pow10 d) <= round_dec d x - x <= (1 # 2) / pow10 d.
+Proof. exact round_dec_bound. Qed.
+Print Assumptions c04_round_bound.
+
+(* ------------------------------------------------------------------ non-vacuity *)
+
+(* a two-month instance: milk only; need = 1 billion kcals, KCALS_MONTHLY = 3000 *)
+Definition ex_conv : conv := {| kcals_daily := 100; fat_daily := 47; protein_daily := 51; population := 1000000000 # 3000 |}.
+Definition ex_lp : lp_in :=
+  {| NM := 2; add_sw := false; add_cr := false; add_sf := false; add_meat := false; add_scp := false; add_cs := false;
+     store_years := true; pop := 1000000000 # 3000; kcals_monthly_pp := 3000; need := 1;
+     w_sf := 0; w_cr := 0; w_meat := 0; w_scp := 0; w_cs := 0; w_sw := 0; sf0 := 0; meat_total := 0;
+     sw_kcals := 1; sw_init := 0; sw_init_area := 0; sw_min_density := 0; sw_max_density := 0; sw_harvest_loss := 0;
+     relocated := false; harvest_delay := 0;
+     cap_sw_h := 0; cap_sw_f := 0; cap_sw_b := 0; cap_scp_h := 0; cap_scp_f := 0; cap_scp_b := 0;
+     cap_cs_h := 0; cap_cs_f := 0; cap_cs_b := 0;
+     crops_prod := []; milk := [1; 2]; greenhouse := []; fish := [];
+     scp_prod := []; cs_prod := []; built_area := []; growth := []; feed_charge := []; biofuel_charge := [];
+     meat_monthly := []; meat_running := []; max_feed := []; max_biofuel := [];
+     pin_cr := []; pin_sf := []; pin_meat := []; pin_scp := []; pin_cs := []; pin_sw := [] |}.
+Definition ex_a : assignment := fun s m =>
+  match s, m with
+  | Consumed, O => 100 | Consumed, S O => 200 | Obj, O => 100 | _, _ => 0
+  end.
+
+Example c04_settings_exist : lp_settings_ok ex_lp ex_conv /\ settings_ok (report_in ex_lp ex_conv ex_a).
+Proof. unfold lp_settings_ok, settings_ok, positive_settings; cbn; repeat split; reflexivity. Qed.
+
+Example c04_feasible2_exists : Feasible2 ex_lp ToHumans 100 ex_a.
+Proof.
+  split; [split|].
+  - intros s m. destruct s; cbn; try lra; destruct m as [|[|m]]; cbn; lra.
+  - cbn. repeat constructor; unfold sat; cbn; lra.
+  - cbn. repeat constructor; unfold sat; cbn; lra.
+Qed.
+
+Example c04_report_accepts :
+  match report (report_in ex_lp ex_conv ex_a) with
+  | Ok (_, ii) => headline ii == 100 /\ headline ii <= 100
+  | Rejected _ => False
+  end.
+Proof. vm_compute. split; [reflexivity|discriminate]. Qed.
+
+(* both branches of the split occur, and np.round at a tie goes to the even neighbour *)
+Example c04_split_branches :
+  split_month 3 5 (1 # 2) = (3 * (1 # 2), (5 - 3) * (1 # 2)) /\ split_month 5 3 (1 # 2) = (3 * (1 # 2), 0 * (1 # 2)).
+Proof. split; reflexivity. Qed.
+Example c04_round_examples :
+  round_dec 3 (12345 # 10000000) == 1 # 1000 /\ round_dec 3 (5 # 10000) == 0 /\ round_dec 3 (15 # 10000) == 2 # 1000 /\
+  round_dec 1 (-(26 # 100)) == -(3 # 10).
+Proof. repeat split; vm_compute; reflexivity. Qed.
